@@ -273,14 +273,36 @@ def run(chk, repo):
     kc = repo.strategy(LL, "lpc", "kcovar").node
     kb = docstring_free(kc.body)
     txt = {unparse(s.targets[0]): unparse(s.value) for s in kb if isinstance(s, ast.Assign)}
+    for_loops = [s_ for s_ in kb if isinstance(s_, ast.For) and unparse(s_.iter) in ("xrange(1, order + 1)", "range(1, order + 1)")
+                 and isinstance(s_.target, ast.Name) and s_.target.id == "m"]
     ok = txt.get("phi") == "lag_matrix(blk, order)" and txt.get("order") == "len(phi) - 1" and txt.get("A") == "ZFilter(1)" \
-        and txt.get("B") == "[z ** (-1)]" and txt.get("beta") == "[inner(B[0], B[0])]" and txt.get("m") == "1"
+        and txt.get("B") == "[z ** (-1)]" and txt.get("beta") == "[inner(B[0], B[0])]" \
+        and (txt.get("m") == "1" or (len(for_loops) == 1 and "m" not in txt))
     chk.decide(ok, "C10.kcovar", WL("lpc[kcovar]"), "initialisation: %s" % {k: txt.get(k) for k in ("phi", "order", "A", "B", "beta", "m")},
                why="covariance recursion must start from A = 1, B0 = z^-1, beta0 = <B0, B0>", node=kc)
     inner = [f for f in kb if isinstance(f, FuncTypes) and f.name == "inner"]
     ok = len(inner) == 1 and "phi[i][j] * ai * bj" in unparse(inner[0])
     chk.decide(ok, "C10.kcovar", WL("lpc[kcovar].inner"), "sum phi[i][j] * a_i * b_j", why="covariance inner product", node=kc)
     wl = [s for s in kb if isinstance(s, ast.While)]
+    counted = False
+    if not wl and len(for_loops) == 1:
+        # for m in 1..order: step ; if m < order: extend the basis      then error / return after the loop
+        fl_ = for_loops[0]
+        fb = list(fl_.body)
+        ext = fb[-1] if fb and isinstance(fb[-1], ast.If) and not fb[-1].orelse else None
+        after = kb[kb.index(fl_) + 1:]
+        chk.require(ext is not None and same_cond(norm_cmp(ext.test), parse_cond("m < order")),
+                    "lpc.kcovar: counted loop without the 'm < order' extension guard")
+        # the same statements as the open-ended loop, in its order: step, termination, extension, increment
+        fin_if = ast.If(test=ast.parse("m >= order", mode="eval").body, body=after, orelse=[])
+        inc_ = ast.parse("m += 1").body[0]
+        synth = ast.While(test=ast.Constant(value=True), body=fb[:-1] + [fin_if] + list(ext.body) + [inc_], orelse=[])
+        ast.fix_missing_locations(synth)
+        for n_ in ast.walk(synth):
+            if not hasattr(n_, "lineno"):
+                n_.lineno = fl_.lineno
+        wl = [synth]
+        counted = True
     chk.require(len(wl) == 1, "lpc.kcovar: main loop not found")
 
     def hk2(ev, name, node):
@@ -288,8 +310,12 @@ def run(chk, repo):
             return opaque("inner", *[ev.ev(a) for a in node.args])
         return None
 
+    grown = {"B": 0, "beta": 0}          # appends seen so far in the iteration: len == m + grown
+
     def sub2(ev, node):
         if isinstance(node, ast.Subscript) and isinstance(node.value, ast.Name) and node.value.id in ("B", "beta", "gamma"):
+            if unparse(node.slice) == "-1" and node.value.id in grown:
+                return opaque(node.value.id, RF.sym("m") - 1 + grown[node.value.id])
             return opaque(node.value.id, ev.ev(node.slice))
         return None
     from ..ratfun import sym_pow
@@ -298,6 +324,13 @@ def run(chk, repo):
     m = RF.sym("m")
     stmts = wl[0].body
     try:
+        for s_ in stmts:
+            if isinstance(s_, ast.Assign) and len(s_.targets) == 1 and isinstance(s_.targets[0], ast.Name) \
+                    and s_.targets[0].id not in ("k", "gamma", "m", "A"):
+                try:
+                    env[s_.targets[0].id] = Evaluator(env, call_hook=hk2, attr_hook=sub2).ev(s_.value)
+                except Inconclusive:
+                    pass
         tr = [s for s in stmts if isinstance(s, ast.Try)]
         kasg = tr[0].body[0] if tr else None
         okk = kasg is not None and unparse(kasg.targets[0]) == "k" and Evaluator(env, call_hook=hk2, attr_hook=sub2).ev(kasg.value) == \
@@ -318,10 +351,27 @@ def run(chk, repo):
                    why="at m >= order the error <A, A> is stored and A returned", node=wl[0])
         ga = [s for s in stmts if isinstance(s, ast.Assign) and unparse(s.targets[0]) == "gamma"]
         okga = False
+        def over_q(comp, names):
+            """environment in which the element of a comprehension over the first m indices can be read: either
+            ``for q in range(m)`` or ``for a, b in zip(A, B)`` (both lists hold m items at that point)"""
+            g = comp.generators[0]
+            if len(comp.generators) != 1 or g.ifs:
+                return None
+            it_ = unparse(g.iter)
+            if it_ in ("xrange(m)", "range(m)") and isinstance(g.target, ast.Name):
+                return dict(env, **{g.target.id: RF.sym("q")})
+            if isinstance(g.iter, ast.Call) and unparse(g.iter.func) in ("xzip", "zip") and isinstance(g.target, ast.Tuple) \
+                    and len(g.target.elts) == len(g.iter.args) and all(isinstance(t_, ast.Name) for t_ in g.target.elts) \
+                    and all(unparse(a_) in names for a_ in g.iter.args):
+                e2 = dict(env)
+                for t_, a_ in zip(g.target.elts, g.iter.args):
+                    e2[t_.id] = opaque(unparse(a_), RF.sym("q"))
+                return e2
+            return None
         if len(ga) == 1 and isinstance(ga[0].value, ast.ListComp):
             lc = ga[0].value
-            okga = unparse(lc.generators[0].iter) in ("xrange(m)", "range(m)") and \
-                Evaluator(env, call_hook=hk2, attr_hook=sub2).ev(lc.elt) == \
+            eq_ = over_q(lc, ("B", "beta"))
+            okga = eq_ is not None and Evaluator(eq_, call_hook=hk2, attr_hook=sub2).ev(lc.elt) == \
                 opaque("inner", sym_pow(x, m + 1), opaque("B", RF.sym("q"))) / opaque("beta", RF.sym("q"))
         chk.decide(okga, "C10.kcovar", WL("lpc[kcovar]"), short(ga[0]) if ga else "gamma missing",
                    why="gamma_q = <z^-(m+1), B[q]> / beta[q] for q < m", node=wl[0])
@@ -333,12 +383,20 @@ def run(chk, repo):
                 and Evaluator(env).ev(e.left) == sym_pow(x, m + 1) and isinstance(e.right, ast.Call) and unparse(e.right.func) == "sum"
             if okb:
                 ge = e.right.args[0]
-                okb = unparse(ge.generators[0].iter) in ("xrange(m)", "range(m)") and \
-                    Evaluator(env, call_hook=hk2, attr_hook=sub2).ev(ge.elt) == opaque("gamma", RF.sym("q")) * opaque("B", RF.sym("q"))
+                eq_ = over_q(ge, ("gamma", "B")) if isinstance(ge, (ast.GeneratorExp, ast.ListComp)) else None
+                okb = eq_ is not None and \
+                    Evaluator(eq_, call_hook=hk2, attr_hook=sub2).ev(ge.elt) == opaque("gamma", RF.sym("q")) * opaque("B", RF.sym("q"))
         chk.decide(okb, "C10.kcovar", WL("lpc[kcovar]"), short(ba[0]) if ba else "B.append missing",
                    why="new basis vector = z^-(m+1) minus its projections on the previous ones", node=wl[0])
         be = [s for s in stmts if isinstance(s, ast.Expr) and isinstance(s.value, ast.Call) and unparse(s.value.func) == "beta.append"]
-        okbe = len(be) == 1 and unparse(be[0].value.args[0]) == "inner(B[m], B[m])"
+        okbe = False
+        if len(be) == 1 and ba:
+            grown["B"] = 1 if stmts.index(be[0]) > stmts.index(ba[0]) else 0
+            try:
+                okbe = Evaluator(env, call_hook=hk2, attr_hook=sub2).ev(be[0].value.args[0]) == \
+                    opaque("inner", opaque("B", m), opaque("B", m))
+            finally:
+                grown["B"] = 0
         inc = stmts[-1]
         okbe = okbe and unparse(inc) == "m += 1" and stmts.index(be[0]) > stmts.index(ba[0])
         chk.decide(okbe, "C10.kcovar", WL("lpc[kcovar]"), (short(be[0]) if be else "beta.append missing") + " ; " + short(inc),
